@@ -1077,10 +1077,10 @@ def prove(hyps, goal, boxes=None, seed=0, use_cvc5=False, sigma=True, timeout_ms
             if isinstance(h, sp.Le) and h.rhs == 0 and getattr(h.lhs, "func", None) == SigmaF:
                 cands.append(h.lhs)
             for t in cands:
-                r0 = prove([x for x in hyps if x is not h], sp.Ge(t.args[1], 0), sigma=False, timeout_ms=3000)
+                r0 = prove([x for x in hyps if x is not h], sp.Ge(t.args[1], 0), sigma=False, timeout_ms=10000)
                 if r0.status == "proved":
                     extra.append(sp.Eq(t.args[1], 0))
-        ex2, _ = sigma_lemmas(hyps, allx, lambda H, G: prove(H, G, sigma=False, timeout_ms=5000), refs)
+        ex2, _ = sigma_lemmas(hyps, allx, lambda H, G: prove(H, G, sigma=False, timeout_ms=20000), refs)
         extra = extra + ex2
     r = z3_prove(hyps + extra, goal, timeout_ms)
     if r.status == "proved":
